@@ -10,7 +10,7 @@ from vlib import core
 from checks import parsegen
 from checks import probe_common as pc
 
-THEOREMS = ["C02_backends_agree", "C02_ssr_text", "C02_lit_wrapper", "C02_literals_agree", "C02_literals_instance", "C02_scope_transparent", "C02_scope_chain",
+THEOREMS = ["C02_backends_agree", "C02_ssr_text", "C02_lit_wrapper", "C02_literals_agree", "C02_literals_instance", "C02_attrs_agree", "C02_scope_transparent", "C02_scope_chain",
             "C02_arm_select", "C02_defaulted_agree", "C02_defaulted_literal", "C02_effective_is_walk", "C02_defaulted_config", "C02_ranges_agree", "C02_plurals_agree",
             "C02_spec"]
 THEOREMS_C01B = ["C01_codegen_view", "C01_codegen_string", "C01_tuple_order", "C01_tuple_order_eval", "C01_flatten_atoms",
@@ -99,7 +99,8 @@ def coq_case(tag, project, key, loc, a, flavours, oracle):
     if key.plural:
         icu = FORM_CODE.get(oracle.get((loc, key.plural, pc.count_of(key, a))), 7)
     vs = core.coq_list(["(%s, %s)" % (core.coq_str("var_" + v), core.coq_str(env[v])) for v in sorted(env)])
-    cs = core.coq_list(["(%s, %s)" % (core.coq_str("comp_" + c), core.coq_str(key.tags[c])) for c in key.comps])
+    cs = core.coq_list(["(%s, (%s, %s))" % (core.coq_str("comp_" + c), core.coq_str(key.tags[c]), core.coq_list(
+        ["(%s, %s)" % (core.coq_str(n), core.coq_str(v)) for n, v in key.attrs.get(c, [])])) for c in key.comps])
     so = [t for f, t in sorted(flavours.items()) if f.split(":")[-1] not in pc.VIEW_FLAVOURS]
     vo = [t for f, t in sorted(flavours.items()) if f.split(":")[-1] in pc.VIEW_FLAVOURS]
     # identical outputs are listed once: the case term stays small and every distinct answer is still judged
@@ -179,7 +180,7 @@ def probe(ctx, tag, project, assignments=2):
                              "count": pc.count_of(key, a) if (key.range_type or key.plural) else None,
                              "plural": key.plural,
                              "icu_category": oracle.get((loc, key.plural, pc.count_of(key, a))) if key.plural else None,
-                             "args": pc.env_of(key, a), "component_tags": key.tags, "flavours": len(fl),
+                             "args": pc.env_of(key, a), "component_tags": key.tags, "component_attributes": key.attrs, "flavours": len(fl),
                              "outputs": {f: t for f, t in fl.items()} if len(set(fl.values())) > 1 else
                                         {"(all %d flavours)" % len(fl): next(iter(fl.values()))},
                              "size": size_of(v), "locales": len(project.locales),
